@@ -170,7 +170,7 @@ def run(ctx):
     cases = []
     for tag, (seq, pairs) in inputs:
         sizes = component_sizes(pairs)
-        want_opt = sizes is not None and max(sizes or [0]) <= ctx.pick(9, 11)
+        want_opt = sizes is not None and max(sizes or [0]) <= ctx.pick(9, 10)
         nst = len(sizes) if sizes is not None else len(stems_of(pairs))
         # random level vector (any levels 0..31: the writer must follow them or raise IndexError)
         r = ctx.rng.random()
